@@ -15,6 +15,8 @@ class PatchList:
         self.patches: OrderedDict[str, Patch] = OrderedDict()
         self.default: Dict[str, str] = {}
         self.merged: List[List[str]] = []  # data for the mergePatchPairs entry
+        # types and settings changed by the user; kept when patches are cleared
+        self.modified: Dict[str, dict] = {}
 
     def add(self, vertices: List[Vertex], operation: Operation) -> None:
         """Create Patches from operation's patch_names"""
@@ -25,6 +27,10 @@ class PatchList:
         """Fetches an existing Patch or creates a new one"""
         if name not in self.patches:
             self.patches[name] = Patch(name)
+
+            if name in self.modified:
+                self.patches[name].kind = self.modified[name]["kind"]
+                self.patches[name].settings = self.modified[name]["settings"]
 
         return self.patches[name]
 
@@ -43,6 +49,8 @@ class PatchList:
 
         if settings is not None:
             patch.settings = settings
+
+        self.modified[name] = {"kind": patch.kind, "settings": patch.settings}
 
     def merge(self, master: str, slave: str) -> None:
         """Adds an entry in mergePatchPairs list in blockMeshDict"""
